@@ -235,7 +235,9 @@ CLAIMS = {
              "every loop and the held score is non-decreasing between any two points of the run, so the result is at least "
              "the input score.  Key float facts proved through Flocq: x<y -> (x-y)/+0 = -inf; the factor "
              "min(max(0,1-r),f64::MAX) is finite and non-negative for every r, so 0*factor = +0; <= is transitive.  "
-             "(Defects D17/D18 - infinite ratio, negative-zero start - were found through the old theorem's premises and fixed.)",
+             "(Defects D17/D18 - infinite ratio, negative-zero start - were found through the old theorem's premises and fixed.)  "
+             "The command line: the three stages of a replica are translated from the text of main.rs on every run "
+             "(gen/GenCli.v) and stages 1 and 3 are proved to be such zero-temperature runs for every user configuration.",
         note=OPT_NOTE + "  Premise: libm exp(-inf) = 0."),
     "C06": dict(
         engine="opt", design_ref="DESIGN.md section 4 C06",
